@@ -11,6 +11,9 @@ checks = {
  "C03": dict(technique="runtime monitoring: generated slice/string programs executed under real /bin/bash, judged by an independent reference interpreter",
    text="Differential runtime monitoring of slice and string operations: all substring index pairs up to length 12, growth/gap-fill for old lengths 0..12, aliasing chains, copy for all length pairs, range forms, plus a random sweep with arbitrary int index expressions.",
    note="Trusted: RefLang interpreter (slices as shared growable vectors), /bin/bash 5.2. Undefined cases (out-of-range, resize while ranging, copy into longer dst) discarded.", ref="§3 C03"),
+ "C13": dict(technique="runtime monitoring: hostile inputs fed to the real Transpile in supervised child processes; result-shape predicate, panic/death/hang detection with isolated confirmation",
+   text="Robustness monitor: all single-token edits of a corpus of valid programs, double edits, random bytes and token soups, semantic near-misses, file/import configurations including all 512 import graphs over three files; every input runs in a supervised worker process under recover(); the oracle is the result shape (exactly one of script/error, non-empty error, no panic, no process death, return within the bound).",
+   note="Trusted: the supervision harness. Termination bound is a watchdog 3-4 orders of magnitude above normal cost, confirmed in isolation before it is reported.", ref="§3 C13"),
  "C12": dict(technique="runtime monitoring: metamorphic comparison of the real Transpile's output for a program and its token-preserving re-layouts",
    text="Metamorphic monitor: the suite's own programs, std/, examples/, generated and hand-written programs are re-laid-out (CRLF, re-indentation, trailing blanks, blank/comment lines at every break, comments and blanks in every gap, final newline, blank removal) as whole-file and single-site edits; a variant counts only when the reference lexer confirms the token list is preserved; acceptance and emitted bytes must be identical for both targets.",
    note="Trusted: the reference lexer's notion of token preservation. Only the main file is re-laid-out.", ref="§3 C12"),
